@@ -15,6 +15,7 @@ import (
 func init() {
 	em := "internal/backends/compiler_wat/wir/instruction_emitter.go"
 	register(&Property{ID: "C01", Run: runC01, Mutants: []Mutant{
+		{Name: "string ordering decodes runes again", File: "waroot/src/runtime/string.wa", Old: "\tfor i := 0; i < n; i++ {\n\t\tif x[i] < y[i] {\n\t\t\treturn -1\n\t\t} else if x[i] > y[i] {\n\t\t\treturn 1\n\t\t}\n\t}\n", New: "\ti1 := stringToIter(x)\n\ti2 := stringToIter(y)\n\tfor i := 0; i < n; i++ {\n\t\t_, _, v1, p1 := next_rune(i1)\n\t\ti1.pos = p1\n\t\t_, _, v2, p2 := next_rune(i2)\n\t\ti2.pos = p2\n\t\tif v1 < v2 {\n\t\t\treturn -1\n\t\t} else if v1 > v2 {\n\t\t\treturn 1\n\t\t}\n\t}\n", Expect: "string-order-bytewise"},
 		{Name: "labelled continue of a three-clause for goes to the loop head", File: "internal/ssa/builder.go", Old: "\t\tlabel._break = done\n\t\tlabel._continue = cont\n", New: "\t\tlabel._break = done\n\t\tlabel._continue = loop\n", Expect: "labelled-jump-targets"},
 		{Name: "range loop label breaks to the loop block", File: "internal/ssa/builder.go", Old: "\t\tlabel._break = done\n\t\tlabel._continue = loop\n", New: "\t\tlabel._break = loop\n\t\tlabel._continue = loop\n", Expect: "labelled-jump-targets"},
 		{Name: "named results reloaded after defers only for a bare return", File: "internal/ssa/builder.go", Old: "\t\tfn.emit(new(RunDefers))\n\t\tif fn.namedResults != nil {", New: "\t\tfn.emit(new(RunDefers))\n\t\tif fn.namedResults != nil && len(results) == 0 {", Expect: "named-results-around-defers"},
@@ -187,6 +188,9 @@ func runC01(c *Ctx) {
 	c01NamedResults(c, p, p.Pkg("internal/ssa"))
 	if sp := p.MustPkg("labelled-jump-targets", "internal/ssa"); sp != nil {
 		c01LabelTargets(c, p, sp)
+	}
+	if std := LoadWaStd(c, "string-order-bytewise"); std != nil {
+		c01StringOrder(c, std)
 	}
 	watPk := p.MustPkg("mnemonic-by-type", "internal/backends/compiler_wat/wir/wat")
 	wir := p.MustPkg("opcode-constructor", "internal/backends/compiler_wat/wir")
@@ -461,6 +465,20 @@ func runC01(c *Ctx) {
 							c.Check(maskedOnAllPaths(wir.TypesInfo, arm.Body, kind, cst), "narrow-mask", "binop "+op+" "+kind, loc, "masked with "+cst,
 								fmt.Sprintf("result of %s on %s is not masked with %s on every path: values wrap at 32 bits instead of %s bits", op, kind, cst, strings.TrimPrefix(kind, "U")))
 						}
+					}
+					if op == "Quo" {
+						// Go defines x / -1 for the most negative x (the quotient is x, by two's-complement overflow);
+						// wasm's div_s traps on it. The arm must therefore treat the divisor -1 itself: a comparison or a
+						// select/if has to be emitted besides the division.
+						guarded := false
+						for _, cc := range appendedCtors(wir.TypesInfo, arm.Body, "insts", true) {
+							switch cc.Name {
+							case "wat.NewInstEq", "wat.NewInstNe", "wat.NewInstSelect", "wat.NewInstIf":
+								guarded = true
+							}
+						}
+						c.Check(guarded, "signed-quotient-overflow", op, loc, "the divisor -1 is handled explicitly",
+							"the Quo arm emits the wasm division with the raw operands: for signed integers div_s traps (integer overflow) on the most negative value divided by -1, where Go defines the quotient to be the dividend")
 					}
 					if op == "Shl" || op == "Shr" {
 						adaptProblem := shiftAdaptProblem(wir, arm.Body, ctorOf[op])
